@@ -116,6 +116,18 @@ impl Trace {
     }
 }
 pub static mut TRACE: Trace = Trace::new();
+
+/// multiplication / division / remainder used by the evaluator: the real operations by default; the
+/// harness crate installs the same (possibly uninterpreted) functions its ISA spec uses
+pub struct Arith { pub mul64: fn(u64, u64) -> u64, pub div64: fn(u64, u64) -> u64, pub rem64: fn(u64, u64) -> u64,
+                   pub mul32: fn(u32, u32) -> u32, pub div32: fn(u32, u32) -> u32, pub rem32: fn(u32, u32) -> u32 }
+fn r_mul64(a: u64, b: u64) -> u64 { a.wrapping_mul(b) }
+fn r_div64(a: u64, b: u64) -> u64 { a / b }
+fn r_rem64(a: u64, b: u64) -> u64 { a % b }
+fn r_mul32(a: u32, b: u32) -> u32 { a.wrapping_mul(b) }
+fn r_div32(a: u32, b: u32) -> u32 { a / b }
+fn r_rem32(a: u32, b: u32) -> u32 { a % b }
+pub static mut ARITH: Arith = Arith { mul64: r_mul64, div64: r_div64, rem64: r_rem64, mul32: r_mul32, div32: r_div32, rem32: r_rem32 };
 /// what the environment answers: chosen by the harness BEFORE compiling
 #[derive(Clone, Copy)]
 pub struct Oracle { pub load_data: u64, pub call_ret: u64, pub params: [u64; 4], pub stack_base: u64, pub init_vars: [u64; 24] }
@@ -268,9 +280,9 @@ impl<'a> BuilderCore for FunctionBuilder<'a> {
         let r = match k {
             0 => x.wrapping_add(y),
             1 => x.wrapping_sub(y),
-            2 => x.wrapping_mul(y),
-            3 => { if y == 0 { self.trap(); 0 } else { x / y } }
-            4 => { if y == 0 { self.trap(); 0 } else { x % y } }
+            2 => unsafe { if t.0 == 32 { (ARITH.mul32)(x as u32, y as u32) as u64 } else if t.0 == 64 { (ARITH.mul64)(x, y) } else { x.wrapping_mul(y) } },
+            3 => { if y == 0 { self.trap(); 0 } else { unsafe { if t.0 == 32 { (ARITH.div32)(x as u32, y as u32) as u64 } else if t.0 == 64 { (ARITH.div64)(x, y) } else { x / y } } } }
+            4 => { if y == 0 { self.trap(); 0 } else { unsafe { if t.0 == 32 { (ARITH.rem32)(x as u32, y as u32) as u64 } else if t.0 == 64 { (ARITH.rem64)(x, y) } else { x % y } } } }
             5 => x & y,
             6 => x | y,
             7 => x ^ y,
